@@ -35,6 +35,9 @@ def family_result(name, tier):
     compile_rejects = []
     if fam.get("literal_units"):
         jobs, compile_rejects = build_literal_units(jobs)
+    if any(j.get("instfile") for j in jobs):
+        jobs, more = build_inst_units(jobs)
+        compile_rejects = compile_rejects + more
     exes = vlib.build_many(jobs)
     log("[%s] built %d recorders in %.1fs" % (name, len(jobs), time.time() - t0))
     wdir = os.path.join(cdir, "%s-%s.%d.d" % (name, key, os.getpid()))      # private to this process
@@ -111,6 +114,62 @@ def build_literal_units(jobs):
                 with open(np_, "w") as f:
                     f.write(nb)
                 cur = dict(cur, litfile=np_, defines=[d for d in cur["defines"] if not d.startswith("VERIF_INST_FILE")] + ['VERIF_INST_FILE="%s"' % np_])
+        out.append(cur)
+    return out, rejects
+
+
+# which harness function template an instantiation line calls -> the event kinds (kind, op) it would have produced
+INST_KINDS = {
+    "pair_all": {"bin": [("ScBin", "add"), ("ScBin", "div")], "neg": [("ScUn", "neg")], "cmp": [("ScCmp", "cmp")], "ident": [("ScIdent", "ident")],
+                 "quot": [("ScQuot", "quotient")], "conv": [("ScConv", "conv")], "roundtrip": [("ScRoundTrip", "roundtrip")]},
+    "quot_all": {"quot": [("ScQuot", "quotient")]},
+    "cmp_all": {"cmp": [("ScCmp", "cmp")]},
+    "single_all": {"conv": [("ScConv", "conv")]},
+    "el_pair": {"elbin": [("ElBin", "add")], "elneg": [("ElUn", "neg")], "elshift": [("ElShift", "shl")], "ellimits": [("ElLimits", "limits")]},
+    "text_scaled": {"": [("Tc", "to_chars")]}, "text_integer": {"": [("Tc", "to_chars")]}, "text_wide": {"": [("Tc", "to_chars")]},
+}
+
+
+def build_inst_units(jobs):
+    """Recorders whose body is a generated list of instantiations that compile on the unchanged tree (job key
+    `instfile`): an instantiation that no longer compiles -- the diagnostics name its line in the generated include and
+    the harness function template in whose body the error arose -- is a rejected event (does_not_compile) for the
+    event kinds that function records, not a machinery failure.  The unit is rebuilt without the offending lines."""
+    rejects, out = [], []
+    for j in jobs:
+        inc = j.get("instfile")
+        if not inc:
+            out.append(j)
+            continue
+        cur = j
+        for _ in range(4):
+            try:
+                vlib.build_one(cur["src"], cur["cc"], cur.get("defines", []), cur["tag"])
+                break
+            except vlib.BuildError as e:
+                lines = sorted(set(int(m) for m in re.findall(re.escape(os.path.basename(cur["instfile"])) + r":(\d+):", e.output)))
+                if not lines:
+                    raise
+                with open(cur["instfile"]) as f:
+                    body = f.read().splitlines()
+                keep = []
+                for k, text in enumerate(body, 1):
+                    if k not in lines:
+                        keep.append(text)
+                        continue
+                    fn = text.strip().split("<", 1)[0]
+                    table = INST_KINDS.get(fn, {})
+                    named = [h for h in table if h and re.search(r"\b%s<" % re.escape(h), e.output)]
+                    kinds = [kk for h in (named or list(table)) for kk in table[h]] or [("?", "?")]
+                    for kind, op in kinds:
+                        rejects.append(dict(event=dict(e="InstCompile", inst=text.strip()[:200], cc=cur["cc"]), inst=dict(kind=kind, op=op),
+                                            diag="does_not_compile", cls='["InstCompile","%s","%s"]' % (fn, kind), ac="novel",
+                                            file=os.path.basename(cur["instfile"]), line=k))
+                nb = "\n".join(keep) + "\n"
+                np_ = os.path.join(os.path.dirname(cur["instfile"]), "reduced-inst-%s.inc" % vlib.sha(nb))
+                with open(np_, "w") as f:
+                    f.write(nb)
+                cur = dict(cur, instfile=np_, defines=[d for d in cur["defines"] if not d.startswith("VERIF_INST_FILE")] + ['VERIF_INST_FILE="%s"' % np_])
         out.append(cur)
     return out, rejects
 
@@ -205,6 +264,12 @@ SCALED_CORE_PAIRS = [
     "SI<i8,-7,2>, i32", "SI<i16,-15,2>, i32", "SI<i8,0,2>, SI<i8,7,2>", "SI<i16,-15,2>, SI<i16,0,2>",
     "SI<i8,-8,2>, i16", "SI<u8,-8,2>, u8", "SI<i8,-6,2>, i8", "SI<u16,-16,2>, SI<u16,1,2>",
 ]
+# dividend exponent far above / below the divisor's: quotient() with a positive / strongly negative result exponent
+# (quotient only: conversions between such types do not compile -- power_value static_asserts)
+SCALED_CORE_QUOTS = [
+    "SI<u32,40,2>, SI<u32,0,2>", "SI<i16,30,2>, SI<i8,-2,2>", "SI<i32,20,2>, SI<i16,1,2>", "SI<u8,12,2>, SI<u8,3,2>",
+    "SI<i8,-20,2>, SI<i32,10,2>", "SI<i64,5,2>, SI<i8,-3,2>",
+]
 SCALED_CORE_SINGLES = ["SI<i32,-8,2>", "SI<i64,-70,2>", "SI<u16,3,2>", "SI<i8,-7,2>", "SI<u64,-32,2>", "SI<i64,40,2>",
                        "SI<cnl::elastic_integer<24>,-12,2>", "SI<cnl::elastic_integer<53>,-60,2>", "i32", "u64"]
 
@@ -250,7 +315,8 @@ def scaled_inst_files(tier):
         singles.append("SI<%s,%d,2>" % (CTYPE[(lw, ls)], le))
     items = ["pair_all<%s>(out, %d);" % (p, k + 1) for k, p in enumerate(pairs)] + \
             ["single_all<%s>(out, %d);" % (p, k + 1001) for k, p in enumerate(singles)] + \
-            ["cmp_all<%s>(out, %d);" % (p, k + 2001) for k, p in enumerate(SCALED_CORE_CMPS)]
+            ["cmp_all<%s>(out, %d);" % (p, k + 2001) for k, p in enumerate(SCALED_CORE_CMPS)] + \
+            ["quot_all<%s>(out, %d);" % (p, k + 3001) for k, p in enumerate(SCALED_CORE_QUOTS)]
     nfiles = vlib.NCPU if tier == "quick" else 2 * vlib.NCPU
     d = os.path.join(vlib.BUILD, "gen")
     files = []
@@ -271,9 +337,9 @@ def scaled_jobs(tier):
     jobs = []
     for k, f in enumerate(scaled_inst_files(tier)):
         # the same instantiations under g++; a rotating quarter also under clang++
-        jobs.append(dict(src="h_scaled.cpp", cc="gcc", tag="scaled-gcc-%d" % k, defines=['VERIF_INST_FILE="%s"' % f]))
+        jobs.append(dict(src="h_scaled.cpp", cc="gcc", tag="scaled-gcc-%d" % k, instfile=f, defines=['VERIF_INST_FILE="%s"' % f]))
         if tier == "thorough" or (k + vlib.seed()) % 4 == 0:
-            jobs.append(dict(src="h_scaled.cpp", cc="clang", tag="scaled-clang-%d" % k, defines=['VERIF_INST_FILE="%s"' % f]))
+            jobs.append(dict(src="h_scaled.cpp", cc="clang", tag="scaled-clang-%d" % k, instfile=f, defines=['VERIF_INST_FILE="%s"' % f]))
     return jobs
 
 
@@ -317,9 +383,9 @@ def elastic_jobs(tier):
             with open(p + ".tmp", "w") as f:
                 f.write(body)
             os.replace(p + ".tmp", p)
-        jobs.append(dict(src="h_elastic.cpp", cc="gcc", tag="el-gcc-%d" % k, defines=['VERIF_INST_FILE="%s"' % p]))
+        jobs.append(dict(src="h_elastic.cpp", cc="gcc", tag="el-gcc-%d" % k, instfile=p, defines=['VERIF_INST_FILE="%s"' % p]))
         if tier == "thorough" or (k + vlib.seed()) % 4 == 0:
-            jobs.append(dict(src="h_elastic.cpp", cc="clang", tag="el-clang-%d" % k, defines=['VERIF_INST_FILE="%s"' % p]))
+            jobs.append(dict(src="h_elastic.cpp", cc="clang", tag="el-clang-%d" % k, instfile=p, defines=['VERIF_INST_FILE="%s"' % p]))
     return jobs
 
 
@@ -410,9 +476,9 @@ def text_jobs(tier):
             with open(p + ".tmp", "w") as f:
                 f.write(body)
             os.replace(p + ".tmp", p)
-        jobs.append(dict(src="h_text.cpp", cc="gcc", tag="text-gcc-%d" % k, defines=['VERIF_INST_FILE="%s"' % p]))
+        jobs.append(dict(src="h_text.cpp", cc="gcc", tag="text-gcc-%d" % k, instfile=p, defines=['VERIF_INST_FILE="%s"' % p]))
         if tier == "thorough" or (k + vlib.seed()) % 4 == 0:
-            jobs.append(dict(src="h_text.cpp", cc="clang", tag="text-clang-%d" % k, defines=['VERIF_INST_FILE="%s"' % p]))
+            jobs.append(dict(src="h_text.cpp", cc="clang", tag="text-clang-%d" % k, instfile=p, defines=['VERIF_INST_FILE="%s"' % p]))
     return jobs
 
 
